@@ -72,6 +72,8 @@ def correspondence(ctx, violations, known_hits):
 
     r = dbgcommon.run_dbg_cases(ctx, cases, tags, violations, profiles, aux=AUX, extra=bound,
                                 note="model: every iteration executes an instruction or reads a command (C16_no_spin), so iterations <= executed + commands + 1 (C16_progress)")
+    faults = stdin_faults(ctx, violations)
+    r["evaluations"] += faults["sessions"]
     ctx.cleanup()
     return dbgcommon.coverage(r,
         "programs that jump to xFFFF, below the origin, to xFE00 and above, or park on HALT x EXHAUSTIVE sequences (length 2, thorough 3) "
@@ -80,7 +82,61 @@ def correspondence(ctx, violations, known_hits):
         "the implementation's loop iterations are checked against the proved bound (executed + commands read + 1) and a session that "
         "hits the iteration cap where the model terminates is a violation", profiles,
         bound_checked=stats["bound_checked"], max_slack=stats["max_slack"], budget_hits=stats["budget_hits"],
-        exhaustive=True, exhaustive_over="resuming-command sequences of the stated length at each special PC")
+        exhaustive=True, exhaustive_over="resuming-command sequences of the stated length at each special PC", failing_stdin=faults)
+
+
+def stdin_faults(ctx, violations):
+    """The real binary when its command stream cannot be read at all: stdin is a DIRECTORY (every read fails with EISDIR),
+    closed, /dev/null or an empty pipe, with the `--command` script used up or absent.  Whatever the reader makes of it
+    (end of input, an error exit), the session must END: it may not sit in the reader executing no instruction and
+    consuming no command."""
+    import os, subprocess, time
+    import clicommon
+    exe = ctx.cli()
+    d = clicommon.fresh_dir(ctx, "stdinfault")
+    open(os.path.join(d, "p.asm"), "w").write("add r0 r0 #1\nadd r0 r0 #2\nhalt\n")
+    open(os.path.join(d, "loop.asm"), "w").write("and r0 r0 #0\nadd r0 r0 #5\nl add r0 r0 #-1\nbrp l\nhalt\n")
+    n = bad = 0
+    res = []
+    for prog in ("p.asm", "loop.asm"):
+        for script in (None, "continue", "step; step", "registers"):
+            for kind in ("directory", "closed", "devnull", "empty-pipe"):
+                args = [exe, "debug", prog, "--minimal"] + (["--command", script] if script is not None else [])
+                fd = None
+                if kind == "directory":
+                    fd = os.open(d, os.O_RDONLY); stdin = fd
+                elif kind == "devnull":
+                    stdin = subprocess.DEVNULL
+                elif kind == "empty-pipe":
+                    stdin = subprocess.PIPE
+                else:
+                    stdin = None
+                try:
+                    p = subprocess.Popen(args, cwd=d, stdin=stdin, stdout=subprocess.DEVNULL, stderr=subprocess.DEVNULL,
+                                         env=dict(os.environ, NO_COLOR="1", RUST_BACKTRACE="0"),
+                                         close_fds=True, preexec_fn=(lambda: os.close(0)) if kind == "closed" else None)
+                    if kind == "empty-pipe":
+                        p.stdin.close()
+                    t0 = time.time()
+                    try:
+                        rc = p.wait(timeout=8)
+                    except subprocess.TimeoutExpired:
+                        p.kill(); p.wait(); rc = None
+                finally:
+                    if fd is not None:
+                        os.close(fd)
+                n += 1
+                res.append((prog, script, kind, rc))
+                if rc is None:
+                    bad += 1
+                    if bad <= 4:
+                        violations.append({"kind": "session-does-not-end", "program": prog, "command_script": script, "stdin": kind,
+                                           "why": "still running after 8 s with nothing left to execute or read"})
+    hist = {}
+    for _, _, kind, rc in res:
+        hist[f"{kind}:{rc}"] = hist.get(f"{kind}:{rc}", 0) + 1
+    return {"sessions": n, "did_not_end": bad, "exit_status_by_stdin": hist,
+            "rule": "real `lace debug --minimal [--command S]` with stdin a directory (reads fail), closed, /dev/null, an empty pipe: the process must end within 8 s"}
 
 
 def replay(ctx, payload):
